@@ -1085,7 +1085,7 @@ impl<'a> CompilerState<'a> {
                         if !(0..32).contains(&r) {
                             return Err(self.syntax_error("Bad shift count", start));
                         }
-                        l << r
+                        i32::try_from((l as i64) << r).map_err(|_| overflow())?
                     }
                     Rule::land => (l != 0 && r != 0) as i32,
                     Rule::lor => (l != 0 || r != 0) as i32,
